@@ -179,6 +179,7 @@ fn base_program(rng: &mut Rng) -> Vec<Node> {
 struct Splitter<'a> {
     rng: &'a mut Rng,
     decoy_dirs: Vec<PathBuf>,
+    include_labels: Vec<String>,
     files: Vec<FileSpec>,
     root: PathBuf,
     caller_dirs: Vec<PathBuf>,
@@ -214,7 +215,7 @@ impl<'a> Splitter<'a> {
             let moved: Vec<Node> = nodes.drain(a..b).collect();
             self.counter += 1;
             let fname = format!("f{}_{}.inc", self.tag, self.counter);
-            let rule = *self.rng.pick(&["absolute", "includer-dir", "includer-subdir", "caller-dir", "includepath-absolute", "includepath-relative", "includepath-relative-nested", "includepath-from-included-file", "caller-dir-while-a-directory-has-that-name"]);
+            let rule = *self.rng.pick(&["absolute", "includer-dir", "includer-subdir", "caller-dir", "includepath-absolute", "includepath-relative", "includepath-relative-nested", "includepath-from-included-file", "caller-dir-while-a-directory-has-that-name", "later-caller-dir-while-an-earlier-one-holds-a-directory-of-that-name"]);
             let mut pre: Vec<Node> = vec![];
             // the name as written is a relative path like any other: it is joined to whichever directory is searched
             let (form, decorated): (&'static str, String) = match self.rng.below(8) {
@@ -236,6 +237,12 @@ impl<'a> Splitter<'a> {
                     self.decoy_dirs.push(decoy);
                     let d = self.rng.pick(&self.caller_dirs).clone();
                     (d.join(&rel), rel.to_string_lossy().to_string())
+                }
+                "later-caller-dir-while-an-earlier-one-holds-a-directory-of-that-name" => {
+                    // the directories are searched in order: the first holds a directory that bears the file's
+                    // name (not a file: the search goes on), the file lies in the second
+                    self.decoy_dirs.push(self.caller_dirs[0].join(&fname));
+                    (self.caller_dirs[1].join(&fname), fname.clone())
                 }
                 "as-written-from-working-directory" => {
                     let d = self.root.join("cwdrel");
@@ -304,7 +311,16 @@ impl<'a> Splitter<'a> {
             let inc = match self.rng.below(6) {
                 0 => Node::Cond { arms: vec![Arm { cond: Cond::Expr(E::Lit(1, 0)), body: vec![inc] }], else_body: Some(vec![Node::Raw(".include \"file/that/exists/nowhere.inc\"".into())]) },
                 1 => Node::Cond { arms: vec![Arm { cond: Cond::Expr(E::Lit(0, 0)), body: vec![Node::Raw(".include \"another/missing/file.inc\"".into()), Node::Raw("garbage !".into())] }], else_body: Some(vec![inc]) },
-                _ => inc,
+                _ => {
+                    // a third of the plain include lines carry a label (referenced at the end of the main file): it
+                    // names the place where the lines of the file begin
+                    if self.rng.chance(1, 3) {
+                        let l = format!("at_include_{}", fname.trim_end_matches(".inc"));
+                        ins.push(Node::Label(l.clone()));
+                        self.include_labels.push(l);
+                    }
+                    inc
+                }
             };
             ins.push(inc);
             for (k, n) in ins.into_iter().enumerate() {
@@ -329,12 +345,33 @@ fn normalize(p: &Path) -> PathBuf {
     out
 }
 
+/// The text of a file of the tree: as printed, except that a label the splitter has put in front of an `.include`
+/// line stands on that line (`at_include_1: .include "f.inc"`, an empty line behind it keeps the numbering).
+/// In the flattened program the label stands on its own line in front of the pasted lines - the same thing.
+fn file_text(nodes: &[Node]) -> String {
+    let t = ir::print_canonical(nodes);
+    let lines: Vec<&str> = t.lines().collect();
+    let mut out = String::with_capacity(t.len() + 8);
+    let mut i = 0;
+    while i < lines.len() {
+        if lines[i].starts_with("at_include_") && lines[i].ends_with(':') && i + 1 < lines.len() && lines[i + 1].trim_start().starts_with(".include") {
+            out.push_str(&format!("{} {}\n\n", lines[i], lines[i + 1].trim_start()));
+            i += 2;
+        } else {
+            out.push_str(lines[i]);
+            out.push('\n');
+            i += 1;
+        }
+    }
+    out
+}
+
 fn build_tree(rng: &mut Rng, case_id: u64, root_base: &Path) -> Tree {
     let root = root_base.join(format!("case{:x}", case_id));
     let main_dir = root.join("main");
     let caller_dirs = vec![root.join("callerA"), root.join("callerB")];
     let base = base_program(rng);
-    let mut sp = Splitter { rng, files: vec![FileSpec { nodes: vec![], disk: main_dir.join(format!("main{:x}.asm", case_id)), rule: "main", form: "name" }], root: root.clone(), caller_dirs: caller_dirs.clone(), counter: 0, tag: format!("{:x}", case_id), decoy_dirs: vec![] };
+    let mut sp = Splitter { rng, files: vec![FileSpec { nodes: vec![], disk: main_dir.join(format!("main{:x}.asm", case_id)), rule: "main", form: "name" }], root: root.clone(), caller_dirs: caller_dirs.clone(), counter: 0, tag: format!("{:x}", case_id), decoy_dirs: vec![], include_labels: vec![] };
     let mut main_nodes = sp.split(base, &main_dir, 0);
     // half of the trees also hold a file that is included more than once and guards parts of itself:
     // `.ifndef G / .define G / first time / .else / later times / .endif`, or a guarded head followed
@@ -366,6 +403,14 @@ fn build_tree(rng: &mut Rng, case_id: u64, root_base: &Path) -> Tree {
             main_nodes.push(Node::Include { path: format!("./{}", fname), file: k });
         }
     }
+    // the labels on include lines are used: a table of their values at the end of the main file
+    if !sp.include_labels.is_empty() {
+        main_nodes.push(Node::Seg(Seg::Code));
+        for l in sp.include_labels.clone() {
+            let l = spell::case(&l, sp.rng);
+            main_nodes.push(Node::Data { label: None, width: 4, ops: vec![DataOp::E(E::Sym(l))] });
+        }
+    }
     sp.files[0].nodes = main_nodes;
     Tree { files: sp.files, caller_dirs, root, decoy_dirs: sp.decoy_dirs }
 }
@@ -382,7 +427,7 @@ fn write_tree(t: &Tree, skip: Option<usize>) -> std::io::Result<()> {
         std::fs::create_dir_all(disk.parent().unwrap())?;
         // directories named by relative .includepath must exist for `..` to resolve
         std::fs::create_dir_all(f.disk.parent().unwrap()).ok();
-        std::fs::write(&disk, ir::print_canonical(&f.nodes))?;
+        std::fs::write(&disk, file_text(&f.nodes))?;
     }
     // make every directory that a `x/../y` path walks through exist
     for f in &t.files {
@@ -461,7 +506,7 @@ fn check(ctx: &Ctx, rng: &mut Rng, case_id: u64, root_base: &Path) {
     let flat_out = fw::build_str(&flat_src);
     ctx.eval(1);
     let tree_json = || {
-        json!(t.files.iter().map(|f| json!({"path": normalize(&f.disk).display().to_string(), "rule": f.rule, "text": ir::print_canonical(&f.nodes)})).collect::<Vec<_>>())
+        json!(t.files.iter().map(|f| json!({"path": normalize(&f.disk).display().to_string(), "rule": f.rule, "text": file_text(&f.nodes)})).collect::<Vec<_>>())
     };
     let replay = |d: Value| json!({"tree": tree_json(), "decoy_dirs": t.decoy_dirs.iter().map(|p| p.display().to_string()).collect::<Vec<_>>(), "caller_dirs": t.caller_dirs.iter().map(|p| p.display().to_string()).collect::<Vec<_>>(), "flattened": flat_src, "detail": d, "observed": out.brief(), "observed_flattened": flat_out.brief()});
     // evidence: which rule resolved each include
@@ -537,7 +582,7 @@ fn check(ctx: &Ctx, rng: &mut Rng, case_id: u64, root_base: &Path) {
                 }
                 // recovery: the file is put back and the very same tree is built again (same thread, same paths):
                 // the failed build must not have left anything behind
-                let _ = std::fs::write(&disk, ir::print_canonical(&t.files[victim].nodes));
+                let _ = std::fs::write(&disk, file_text(&t.files[victim].nodes));
                 let again = fw::build_file(&main, &t.caller_dirs);
                 ctx.eval(1);
                 ctx.count("rebuilds_after_failed_build", 1);
